@@ -221,6 +221,23 @@ pub fn c11(c: &Corpus, _tier: &str) -> Report {
             }
         }
         if r.evaluations % 5003 < 6 { r.sample(serde_json::json!({"dialect": dn, "s1": s, "joiner": j})); }
+        // non-default options: the same with trailing commas switched on, for the statement as it is
+        // and (when that is accepted alone) with a trailing comma in front of the separator
+        let on = Opts { unescape: true, trailing: Some(true), limit: None };
+        for s1 in [s.clone(), format!("{s} ,")] {
+            let v1 = match parse(d, on, &s1) { G::Val(Ok(v1)) if v1.len() == 1 => v1, _ => continue };
+            let fv = match parse(d, on, "SELECT 1") { G::Val(Ok(fv)) => fv, _ => continue };
+            let script = format!("{s1}{j}SELECT 1");
+            r.evaluations += 1;
+            let mut want = v1.clone();
+            want.extend(fv.iter().cloned());
+            match parse(d, on, &script) {
+                G::Val(Ok(w)) if w == want => {}
+                G::Val(Ok(w)) => r.fail(format!("{}/swallow", variant_of(&v1[0])), dn, on, &script, format!("trailing commas on: got {} statements: {}", w.len(), trunc(&w.iter().map(|x| x.to_string()).collect::<Vec<_>>().join(" ;; "), 300))),
+                G::Val(Err(e)) => r.fail(format!("{}/reject", variant_of(&v1[0])), dn, on, &script, format!("trailing commas on: error={e}")),
+                G::Panic(m) => r.panic(dn, on, &script, m),
+            }
+        }
     }
     r.distinct_nontrivial = distinct.len() as u64;
     r
